@@ -69,7 +69,7 @@ CLAIMED = {
  "C08": dict(
   level="other",
   technique="static analysis: abstract interpretation of go/ssa (linear constraints, exact fixed-width wrap-around) of every encoder with per-call-string narrowing obligations and an error-discipline rule",
-  text="Decides two structural clauses for every value at once: NARROW - every fixed-width operation in the universe of the 15 packet Marshal methods and of every helper encoder (each analysed as a root with an unconstrained receiver) that can lose information (conversion to a narrower integer, wrapping fixed-width arithmetic, low-bit mask) is shown not to lose any on a path that returns a nil error: the operand is entailed to fit at the operation, or it is a byte extraction whose dropped bits are emitted by a sibling conversion, or its pre-operation value (ghost) is entailed to fit at every success return (a later guard rejected the rest); ERR - in every function of that universe, at each return with a nil error the error of every call it made is entailed nil, so no encoder error is dropped and a packet-level success implies success of every helper. 14 sites where a bounded field is deliberately cut to its width are open findings F15a-n. Level other: float-derived values (REMB mantissa) and OR-overlap of bit fields are not covered, and 'accepted exactly at the limit' is not decided.",
+  text="Decides two structural clauses for every value at once: NARROW - every fixed-width operation in the universe of the 15 packet Marshal methods and of every helper encoder (each analysed as a root with an unconstrained receiver) that can lose information (conversion to a narrower integer, wrapping fixed-width arithmetic, low-bit mask) is shown not to lose any on a path that returns a nil error: the operand is entailed to fit at the operation, or it is a byte extraction whose dropped bits are emitted by a sibling conversion, or its pre-operation value (ghost) is entailed to fit at every success return (a later guard rejected the rest); ERR - in every function of that universe, at each return with a nil error the error of every call it made is entailed nil, so no encoder error is dropped and a packet-level success implies success of every helper. LIMIT - with a field fixed exactly at each of 12 wire limits (31 reports/chunks/sources, 255-octet texts, 2^24-1 lost, 255 REMB SSRCs, 16384 metric blocks, 4-octet APP name, count/subtype 31) not every return of the encoder is an error return (no over-rejection). 14 sites where a bounded field is deliberately cut to its width are open findings F15a-n. Level other: float-derived values (REMB mantissa) and OR-overlap of bit fields are not covered.",
   note="Trusted: go/ssa, checker/num, checker/effects (purity of opaque helpers, determinism of size functions), frozen tables c08SignedWire (1 entry) and c08Triaged (2 entries keyed by root and function, each with a reason and required to match an undecided site); mask sites carry semantic keys (owner function, field, width). Size-domain assumption as in C05.",
   design="DESIGN.md §2 C08"),
  "C18": dict(
@@ -121,7 +121,7 @@ def main():
             checks.append({
                 "property_id": pid,
                 "quick_cmd": f"bin/rtcpcheck -prop {pid} -tier quick",
-                "thorough_cmd": f"bin/rtcpcheck -prop {pid} -tier thorough",
+                "thorough_cmd": f"tools/thorough.sh {pid}",
                 "evidence_file": f"/verif/evidence/{pid}.json",
                 "replay_cmd_template": f"bin/rtcpcheck -prop {pid} -tier quick  # static: re-run on the same tree; {{path}} lists file:line, rule, construct",
                 "engine": "rtcpcheck",
